@@ -15,14 +15,14 @@ from . import common
 PROPERTY_ID = "C19"
 jkey = tk.jkey
 
-VOID = {"hr", "br", "img"}
+VOID = {"hr", "br", "img", "!--c--"}
 
 VOCAB_FULL = ["p", "h1", "blockquote", "pre", "ul", "ol", "li", "div", "hr", "table", "tr", "td",
               "em", "strong", 'a href="u"', "a", "code", 'span style="font-weight:bold"', "br",
-              'img src="i.png"', "img", "script", "foo"]
+              'img src="i.png"', "img", "script", "foo", "!--c--"]
 TEXTS_FULL = ["a", " ", "a b", " a ", "\n"]
 VOCAB_SMALL = ["p", "blockquote", "pre", "ul", "li", "div", "em", "strong", 'a href="u"', "code", "br",
-               'img src="i.png"', 'span style="font-style:italic"', "foo"]
+               'img src="i.png"', 'span style="font-style:italic"', "foo", "!--c--"]
 TEXTS_SMALL = ["a", " "]
 FAMILIES = {
     "lists": (["ul", "ol", "li", "p"], ["a"]),
@@ -90,7 +90,9 @@ def render(forest):
             parts.append(tr[1])
         else:
             name = tag_name(tr[0])
-            if name in VOID:
+            if name == "!--c--":
+                parts.append("<!--c-->")
+            elif name in VOID:
                 parts.append(f"<{tr[0]}>")
             else:
                 parts.append(f"<{tr[0]}>{render(tr[1])}</{name}>")
@@ -332,8 +334,9 @@ def export_scope(model, family, sid, size):
             "types": ["doc", "paragraph", "heading", "code_block", "text", "hard_break", "image"],
             "texts": ["a", "b c", " "],
             "marksets": _ms(model, [], [EM], [STRONG], [EM, STRONG], [("link", {"href": 'u?a=1&b="2"', "title": None})],
-                            [("code", None)]),
-            "attrs": {"image": [{"src": "i.png"}, {"src": "x&y.png", "title": 'T"<'}], "heading": [{"level": 3}]},
+                            [("code", None)], [("link", {"href": "", "title": None})]),
+            "attrs": {"image": [{"src": "i.png"}, {"src": "x&y.png", "title": 'T"<'}, {"src": "", "title": ""}],
+                      "heading": [{"level": 3}]},
             "max_children": 3,
         }
     elif family == "html_lists":
